@@ -13,6 +13,7 @@ package c12
 
 import (
 	"bytes"
+	"errors"
 	"fmt"
 	"math/big"
 	"testing"
@@ -35,6 +36,9 @@ type HStep struct {
 	Acts    []Act  `json:"acts,omitempty"` // what the supplier callback does during each call (see Case.Acts)
 	RepBatch int   `json:"rep_batch,omitempty"` // see Case.RepBatch
 	RepAt    int   `json:"rep_at,omitempty"`
+	Ctx      CtxSpec `json:"ctx,omitempty"`       // see Case.Ctx
+	EndBatch []U     `json:"end_batch,omitempty"` // see Case.EndBatch
+	NilEmpty bool    `json:"nil_empty,omitempty"` // see Case.NilEmpty
 	// edits
 	At   int         `json:"at,omitempty"`
 	N    int         `json:"n,omitempty"`
@@ -47,6 +51,7 @@ type HStep struct {
 	Tag  int         `json:"tag,omitempty"` // quote: FeeType field of the registered fee object (ref.FeeTag*)
 	Via   string      `json:"via,omitempty"`   // quote: the exported way the quote object is changed (ref.FeeQuoteEdit.Via)
 	Unit2 ref.FeeUnit `json:"unit2,omitempty"` // quote via unmarshal: new rate of the other type
+	R     *ref.C11Refused `json:"r,omitempty"` // refused: a call on the quote object that the library refuses
 }
 
 // HistCase is a starting transaction (prior inputs P2PKH-funded), a starting quote, the steps.
@@ -90,11 +95,16 @@ func hStepValid(st HStep) string {
 		if !ref.FeeQuoteEditWideOK(hEdit(st)) {
 			return "quote outside domain"
 		}
+	case "refused":
+		if st.R == nil || !ref.C11RefusedOK(*st.R) {
+			return "malformed refused call"
+		}
 	case "fund":
-		switch st.End {
-		case "exhausted", "exhausted-wrapped", "error":
-		default:
+		if !endOK(st.End) {
 			return "unknown terminator"
+		}
+		if !ctxOK(st.Ctx) || len(st.EndBatch) > 8 {
+			return "malformed context / terminator batch"
 		}
 		n := 0
 		for _, b := range st.Batches {
@@ -138,7 +148,7 @@ func hCopyModel(m ref.Tx) ref.Tx {
 func hModelEdit(m *ref.Tx, q *ref.FeeQuote, st HStep) bool {
 	nin, nout := len(m.In), len(m.Out)
 	switch st.Kind {
-	case "query", "none":
+	case "query", "none", "refused": // a refused update is not an update
 	case "addin":
 		m.In = append(m.In, ref.In{TxID: append(pbt.Hex{}, st.B...), Vout: uint32(st.N), Seq: 0xffffffff, UnlockNil: true, PrevSats: st.U64, PrevScript: ref.FeeP2PKH(st.Hash)})
 	case "isats":
@@ -277,6 +287,13 @@ func hLibEdit(tx *bt.Tx, lq *ref.FeeQuoteLib, qBefore ref.FeeQuote, m ref.Tx, st
 		if err := lq.Apply(&qBefore, hEdit(st)); err != nil {
 			return fmt.Errorf("updating the quote object (%s): %v", st.Via, err)
 		}
+	case "refused":
+		if err := ref.C11RefusedApply(lq, *st.R); err != nil {
+			if errors.Is(err, ref.C11ErrAccepted) {
+				return errStopJudging
+			}
+			return fmt.Errorf("refused call %s: %v", ref.C11RefusedLabel(*st.R), err)
+		}
 	}
 	return nil
 }
@@ -331,7 +348,7 @@ func checkHistory(ctx *pbt.Ctx, c HistCase) error {
 	ctx.Labelf("steps=%d", len(c.Steps))
 	nFund := 0
 	prevKind, lastFund := "start", ""
-	sawInPlace, sawQuote, sawQuery := false, false, false
+	sawInPlace, sawQuote, sawQuery, sawRefused := false, false, false, false
 	for i, st := range c.Steps {
 		if ref.Ambiguous(m) {
 			ctx.Discard("history reaches the ambiguous extended-marker shape")
@@ -340,7 +357,14 @@ func checkHistory(ctx *pbt.Ctx, c HistCase) error {
 		switch st.Kind {
 		case "fund":
 			snap := hCopyModel(ref.FromLib(tx))
-			cc := Case{Tx: snap, Quote: q, Batches: expandBatches(st.Batches, st.RepAt, st.RepBatch), End: st.End, Acts: st.Acts}
+			cc := Case{Tx: snap, Quote: q, Batches: expandBatches(st.Batches, st.RepAt, st.RepBatch), End: st.End, Acts: st.Acts,
+				Ctx: st.Ctx, EndBatch: st.EndBatch, NilEmpty: st.NilEmpty}
+			if st.Ctx.Kind != "" && st.Ctx.Kind != "todo" && st.Ctx.Kind != "deadline-future" {
+				ctx.Label("fund-under-a-context-that-is-or-gets-done")
+				if nFund >= 1 {
+					ctx.Label("later-fund-under-a-context-that-is-or-gets-done")
+				}
+			}
 			funded := true
 			for _, in := range snap.In {
 				if len(in.TxID) != 32 || in.PrevNil || !ref.FeeIsP2PKH(in.PrevScript) {
@@ -364,7 +388,10 @@ func checkHistory(ctx *pbt.Ctx, c HistCase) error {
 			if prevKind == "start" {
 				jc = &pbt.Ctx{} // nothing precedes: this is the "fund" sub-check's own case
 			}
-			if err := judgeFund(jc, cc, want, tx, lq); err != nil {
+			if err := judgeFund(jc, cc, want, tx, lq); err == errStopJudging {
+				ctx.Label("history-ended:no-verdict-on-the-rest")
+				return nil
+			} else if err != nil {
 				return fmt.Errorf("step %d of the history %s on one transaction object (%d inputs, %d outputs when Fund was called; earlier Fund in this history: %q): %v",
 					i+1, hKinds(c.Steps[:i+1]), len(snap.In), len(snap.Out), lastFund, err)
 			}
@@ -392,6 +419,9 @@ func checkHistory(ctx *pbt.Ctx, c HistCase) error {
 				if sawQuery {
 					ctx.Label("supplier-called-after-size-query")
 				}
+				if sawRefused {
+					ctx.Label("supplier-called-after-a-refused-call-on-the-quote")
+				}
 			}
 			lastFund = want.class
 			m = hCopyModel(ref.FromLib(tx))
@@ -416,7 +446,10 @@ func checkHistory(ctx *pbt.Ctx, c HistCase) error {
 				ctx.Label("step-skipped")
 				continue
 			}
-			if err := hLibEdit(tx, lq, qBefore, m, st); err != nil {
+			if err := hLibEdit(tx, lq, qBefore, m, st); err == errStopJudging {
+				ctx.Label("history-ended:no-verdict-on-the-rest")
+				return nil
+			} else if err != nil {
 				return err
 			}
 			switch st.Kind {
@@ -432,6 +465,9 @@ func checkHistory(ctx *pbt.Ctx, c HistCase) error {
 				}
 			case "query":
 				sawQuery = true
+			case "refused":
+				sawRefused = true
+				ctx.Label(ref.C11RefusedLabel(*st.R))
 			}
 			if got := ref.FromLib(tx); !bytes.Equal(ref.Encode(got, true), ref.Encode(m, true)) {
 				if st.Kind == "query" {
@@ -478,7 +514,7 @@ func genHOut(t *rapid.T) (pbt.Hex, uint64) {
 }
 
 func genHEdit(t *rapid.T, m ref.Tx) HStep {
-	kinds := []string{"query", "query", "addout", "addout", "addout", "osats", "oappend", "oappend", "obyte", "rmout", "addin", "isats", "isats", "iunlock", "rmin", "rep", "quote", "quote", "change", "clone"}
+	kinds := []string{"query", "query", "addout", "addout", "addout", "osats", "oappend", "oappend", "obyte", "rmout", "addin", "isats", "isats", "iunlock", "rmin", "rep", "quote", "quote", "change", "clone", "refused"}
 	st := HStep{Kind: rapid.SampledFrom(kinds).Draw(t, "kind")}
 	st.At = rapid.IntRange(0, 5).Draw(t, "at")
 	switch st.Kind {
@@ -520,6 +556,9 @@ func genHEdit(t *rapid.T, m ref.Tx) HStep {
 		genEditWiden(t, &st.Unit, &st.Unit2, &st.Via)
 	case "change":
 		st.Hash = gen.Bytes(t, 20, "chash")
+	case "refused":
+		r := gen.C11Refused(t, "refused")
+		st.R = &r
 	}
 	return st
 }
@@ -580,8 +619,9 @@ func genHistCase(t *rapid.T) HistCase {
 	}
 	genFund := func() HStep {
 		st := HStep{Kind: "fund"}
-		st.Batches, st.Acts = genBatches(t, m, q)
-		st.End = rapid.SampledFrom([]string{"exhausted", "error", "exhausted-wrapped"}).Draw(t, "end")
+		var room uint64
+		st.Batches, st.Acts, room = genBatches(t, m, q)
+		st.End, st.EndBatch, st.Ctx, st.NilEmpty = genFundArgs(t, m, len(st.Batches), room)
 		if rapid.IntRange(0, 299).Draw(t, "long_run") == 177 && len(m.In) < 20 { // a run of empty batches somewhere
 			fc := Case{Batches: st.Batches}
 			longRunEmpty(&fc, rapid.IntRange(0, len(st.Batches)).Draw(t, "long_at"), rapid.SampledFrom(longRunCounts).Draw(t, "long_n"))
